@@ -11,7 +11,13 @@ every finite history, every allocator schedule, both allocator triples (`new_con
 state satisfying the invariant (BST order, red-black rules, size field = number of nodes).
 
 Preconditions that appear as hypotheses:
-* `TotalOrder cmp` — the property is about total-order comparators;
+* `TotalOrder cmp` — the property is about total-order comparators.  The contract is read on key
+  *identities* (the numbers the model uses for key pointers): `cmp a b = 0 ↔ a = b` (antisymmetry),
+  `cmp a b < 0 ↔ 0 < cmp b a`, transitivity; magnitudes are arbitrary (the harness comparators include
+  one that returns ±(2^31−1)).  Comparators that identify distinct key pointers (`strcmp` on string
+  keys) are a weak order on pointers and outside these theorems; with them goes the one observable the
+  model cannot distinguish, "add of an equivalent key keeps the old key pointer and replaces the value"
+  (the C code assigns `x->value` only; under `eq_zero` old and new key are the same number);
 * `t.Inv cmp` — established by the constructor (`new_inv`) and preserved by every call;
 * `TreeTable.Owns t m` — ledger consistency: the ledger of the table's allocator triple holds at least
   the blocks the table owns (nodes, sentinel, header); established by the constructor, preserved by
@@ -124,8 +130,8 @@ theorem iter_refines (ho : TotalOrder cmp) (t : TreeTable) (h : t.Inv cmp) (prog
 /-- **Sessions**: any interleaving of histories of table calls
 with iterator sessions — "removals by key, of the first entry, of the last entry, all, or through an
 iterator" in one history — returns what the ideal map and the ideal cursor return and ends in the ideal
-content, with invariant, ledger balance and ledger consistency; no fault when every iterator session
-respects the precondition of `iter_remove`. -/
+content, with invariant, ledger balance, ledger consistency and the comparator budget of every table call;
+no fault when every iterator session respects the precondition of `iter_remove`. -/
 theorem session_refines (ho : TotalOrder cmp) (segs : List Segment) (t : TreeTable) (h : t.Inv cmp)
     (m : Mem) (hm : TreeTable.Owns t m) :
     (t.runSession cmp segs m).1 = (OrdMap.runSession cmp (TreeTable.refusedOfT t.triple) t.abs segs).1 ∧
@@ -134,9 +140,10 @@ theorem session_refines (ho : TotalOrder cmp) (segs : List Segment) (t : TreeTab
     (TreeTable.SessionValid cmp t segs m → (t.runSession cmp segs m).2.2.fault = m.fault) ∧
     TreeTable.liveOf (t.runSession cmp segs m).2.2 t.triple + t.size =
       TreeTable.liveOf m t.triple + (t.runSession cmp segs m).2.1.size ∧
-    TreeTable.Owns (t.runSession cmp segs m).2.1 (t.runSession cmp segs m).2.2 := by
+    TreeTable.Owns (t.runSession cmp segs m).2.1 (t.runSession cmp segs m).2.2 ∧
+    ∀ p ∈ t.sessionCounts cmp segs m, p.2 ≤ 2 * Nat.log2 (p.1 + 1) + 2 := by
   obtain ⟨a, b, c, d, e, _, g⟩ := TreeTable.session_ok ho segs h m hm
-  exact ⟨a, b, c, d, e, g⟩
+  exact ⟨a, b, c, d, e, g, TreeTable.session_counts_ok ho segs h m hm⟩
 
 /-- the ideal cursor enumerates the map: `n+1` calls of `next` on a map of `n` entries yield every
 entry once, in ascending key order, and then `CC_ITER_END` -/
@@ -229,6 +236,95 @@ theorem spec_lesser_than (m : OrdMap) (hs : Sorted cmp m) (k : Nat) :
 theorem spec_remove_empty (k : Nat) :
     (opRemoveFirst []).1 = .errKeyNotFound ∧ (opRemoveLast []).1 = .errKeyNotFound ∧
     (opRemove [] k).1 = .errKeyNotFound := ⟨rfl, rfl, rfl⟩
+
+/-! ## The wording of the property, on the tables that histories reach
+
+Every state a history (or session) reaches satisfies `Inv` and `Owns` (`history_refines`,
+`session_refines`), so the statements below — for an arbitrary state with `Inv` and `Owns` — speak about
+the table "after any history"; `after_history_greater_than` spells the composition out once. -/
+
+/-- `get_first_key` / `get_last_key` return the least / greatest stored key -/
+theorem first_last_are_extremes (ho : TotalOrder cmp) (t : TreeTable) (h : t.Inv cmp) (m : Mem)
+    (hm : TreeTable.Owns t m) (k : Nat) :
+    ((t.step cmp .firstKey m).1 = { st := some .ok, val := some k } →
+        k ∈ keys t.abs ∧ ∀ k' ∈ keys t.abs, k' = k ∨ cmp k k' < 0) ∧
+    ((t.step cmp .lastKey m).1 = { st := some .ok, val := some k } →
+        k ∈ keys t.abs ∧ ∀ k' ∈ keys t.abs, k' = k ∨ cmp k' k < 0) := by
+  constructor
+  · intro hs
+    rw [(step_refines ho t h .firstKey m hm).out] at hs
+    simp only [OrdMap.step, opFirstKey] at hs
+    cases hf : first t.abs with
+    | none => rw [hf] at hs; simp at hs
+    | some e =>
+      rw [hf] at hs
+      simp only [Out.mk.injEq, Option.some.injEq, true_and, and_true] at hs
+      obtain ⟨h1, h2⟩ := first_min h.sorted hf
+      subst hs
+      refine ⟨List.mem_map.2 ⟨e, h1, rfl⟩, fun k' hk' => ?_⟩
+      obtain ⟨e', he', rfl⟩ := List.mem_map.1 hk'
+      rcases h2 e' he' with rfl | hlt
+      · exact Or.inl rfl
+      · exact Or.inr hlt
+  · intro hs
+    rw [(step_refines ho t h .lastKey m hm).out] at hs
+    simp only [OrdMap.step, opLastKey] at hs
+    cases hf : last t.abs with
+    | none => rw [hf] at hs; simp at hs
+    | some e =>
+      rw [hf] at hs
+      simp only [Out.mk.injEq, Option.some.injEq, true_and, and_true] at hs
+      obtain ⟨h1, h2⟩ := last_max h.sorted hf
+      subst hs
+      refine ⟨List.mem_map.2 ⟨e, h1, rfl⟩, fun k' hk' => ?_⟩
+      obtain ⟨e', he', rfl⟩ := List.mem_map.1 hk'
+      rcases h2 e' he' with rfl | hlt
+      · exact Or.inl rfl
+      · exact Or.inr hlt
+
+/-- `get_greater_than k` answers `CC_OK k'` exactly for the least stored key `k'` strictly above a stored
+key `k`; otherwise (no key above, or `k` not stored) it reports not-found.  Mirror for `get_lesser_than`. -/
+theorem greater_lesser_are_neighbours (ho : TotalOrder cmp) (t : TreeTable) (h : t.Inv cmp) (m : Mem)
+    (hm : TreeTable.Owns t m) (k : Nat) :
+    (∀ k', (t.step cmp (.greaterThan k) m).1 = { st := some .ok, val := some k' } →
+        contains t.abs k = true ∧ ∃ e ∈ t.abs, e.1 = k' ∧ cmp k k' < 0 ∧
+          ∀ e' ∈ t.abs, cmp k e'.1 < 0 → e' = e ∨ cmp k' e'.1 < 0) ∧
+    ((t.step cmp (.greaterThan k) m).1.st ≠ some .ok → contains t.abs k = false ∨ ∀ e ∈ t.abs, ¬ cmp k e.1 < 0) ∧
+    (∀ k', (t.step cmp (.lesserThan k) m).1 = { st := some .ok, val := some k' } →
+        contains t.abs k = true ∧ ∃ e ∈ t.abs, e.1 = k' ∧ cmp k' k < 0 ∧
+          ∀ e' ∈ t.abs, cmp e'.1 k < 0 → e' = e ∨ cmp e'.1 k' < 0) ∧
+    ((t.step cmp (.lesserThan k) m).1.st ≠ some .ok → contains t.abs k = false ∨ ∀ e ∈ t.abs, ¬ cmp e.1 k < 0) := by
+  have g := spec_greater_than (cmp := cmp) t.abs h.sorted k
+  have l := spec_lesser_than (cmp := cmp) t.abs h.sorted k
+  rw [(step_refines ho t h (.greaterThan k) m hm).out, (step_refines ho t h (.lesserThan k) m hm).out]
+  simp only [OrdMap.step]
+  refine ⟨fun k' hk => g.1 k' ?_, fun hn => g.2 (fun x => hn (by rw [x])), fun k' hk => l.1 k' ?_,
+    fun hn => l.2 (fun x => hn (by rw [x]))⟩
+  · simp only [Out.mk.injEq, Option.some.injEq, and_true] at hk
+    exact Prod.ext hk.1 hk.2
+  · simp only [Out.mk.injEq, Option.some.injEq, and_true] at hk
+    exact Prod.ext hk.1 hk.2
+
+/-- `foreach_key` hands out the stored keys, every key once, in strictly ascending comparator order -/
+theorem foreach_is_ascending (ho : TotalOrder cmp) (t : TreeTable) (h : t.Inv cmp) (m : Mem) :
+    (t.step cmp .foreachKey m).1.log = keys t.abs ∧
+    (keys t.abs).Pairwise (fun a b => cmp a b < 0) ∧ (keys t.abs).Nodup :=
+  ⟨TreeTable.foreachKey_spec t, keys_ascending h.sorted, TreeTable.keys_nodup ho h.sorted⟩
+
+/-- the composition spelled out: **after any history**, `get_greater_than k` returns the least stored key
+above `k` -/
+theorem after_history_greater_than (ho : TotalOrder cmp) (ops : List (Op × List Bool)) (t : TreeTable)
+    (h : t.Inv cmp) (m : Mem) (hm : TreeTable.Owns t m) (k k' : Nat) (sched : List Bool)
+    (hs : ((t.run cmp ops m).2.2.1.step cmp (.greaterThan k) ((t.run cmp ops m).2.2.2.begin sched)).1 =
+      { st := some .ok, val := some k' }) :
+    let f := (OrdMap.run cmp t.abs (ops.map fun p => (p.1, TreeTable.refusedOfT t.triple p.2))).2
+    contains f k = true ∧ ∃ e ∈ f, e.1 = k' ∧ cmp k k' < 0 ∧ ∀ e' ∈ f, cmp k e'.1 < 0 → e' = e ∨ cmp k' e'.1 < 0 := by
+  obtain ⟨_, b, c, _, _, g, _⟩ := history_refines ho ops t h m hm
+  have hm' : TreeTable.Owns (t.run cmp ops m).2.2.1 ((t.run cmp ops m).2.2.2.begin sched) := by
+    unfold TreeTable.Owns at g ⊢; rw [TreeTable.liveOf_begin]; exact g
+  have := (greater_lesser_are_neighbours ho _ c _ hm' k).1 k' hs
+  rw [b] at this
+  exact this
 
 /-! ## The pointer walks -/
 
@@ -324,6 +420,49 @@ theorem set_history_refines (ho : TotalOrder cmp) (ops : List (OrdSet.Op × List
     ∀ p ∈ (s.run cmp ops m).2.1, p.2 ≤ 2 * Nat.log2 (p.1 + 1) + 2 := by
   obtain ⟨a, b, c, d, e, _, g, i⟩ := TreeSet.run_ok ho ops h m hm
   exact ⟨a, b, c, d, e, g, i⟩
+
+/-- **Iterator programs on a set** return the statuses and elements of the ideal cursor and end in a
+state with the full *set* invariant, balanced ledger and ledger consistency — so set calls can follow -/
+theorem set_iter_refines (ho : TotalOrder cmp) (s : TreeSet) (h : s.Inv cmp) (prog : List IterOp) (m : Mem)
+    (hm : TreeTable.Owns s.t m) :
+    (s.iterRun cmp s.iterInit prog m).1 =
+      ((Cursor.init s.t.abs).run s.t.abs prog).1.map (fun o => { st := o.st, val := o.val }) ∧
+    (s.iterRun cmp s.iterInit prog m).2.1.t.abs = ((Cursor.init s.t.abs).run s.t.abs prog).2.2 ∧
+    (s.iterRun cmp s.iterInit prog m).2.1.Inv cmp ∧
+    (TreeTable.IterValid cmp s.t s.iterInit prog m → (s.iterRun cmp s.iterInit prog m).2.2.2.fault = m.fault) ∧
+    TreeTable.liveOf (s.iterRun cmp s.iterInit prog m).2.2.2 s.triple + s.t.size =
+      TreeTable.liveOf m s.triple + (s.iterRun cmp s.iterInit prog m).2.1.t.size ∧
+    TreeTable.Owns (s.iterRun cmp s.iterInit prog m).2.1.t (s.iterRun cmp s.iterInit prog m).2.2.2 := by
+  obtain ⟨a, b, c, d, e, _, g⟩ := TreeSet.iterRun_ok ho prog h m hm
+  exact ⟨a, b, c, d, e, g⟩
+
+/-- **Sessions of a set**: set calls interleaved with iterator sessions (removal through the iterator
+included) return what the ideal ordered set and cursor return (as the API hands it back) and end in the
+ideal content with the set invariant, balanced ledger, ledger consistency; no fault inside the contract -/
+theorem set_session_refines (ho : TotalOrder cmp) (segs : List OrdSet.Segment) (s : TreeSet) (h : s.Inv cmp)
+    (m : Mem) (hm : TreeTable.Owns s.t m) :
+    (s.runSession cmp segs m).1 = (OrdSet.runSession cmp (TreeTable.refusedOfT s.triple) s.t.abs segs).1 ∧
+    (s.runSession cmp segs m).2.1.t.abs = (OrdSet.runSession cmp (TreeTable.refusedOfT s.triple) s.t.abs segs).2 ∧
+    (s.runSession cmp segs m).2.1.Inv cmp ∧
+    (TreeSet.SessionValid cmp s segs m → (s.runSession cmp segs m).2.2.fault = m.fault) ∧
+    TreeTable.liveOf (s.runSession cmp segs m).2.2 s.triple + s.t.size =
+      TreeTable.liveOf m s.triple + (s.runSession cmp segs m).2.1.t.size ∧
+    TreeTable.Owns (s.runSession cmp segs m).2.1.t (s.runSession cmp segs m).2.2 := by
+  obtain ⟨a, b, c, d, e, _, g⟩ := TreeSet.session_ok ho segs h m hm
+  exact ⟨a, b, c, d, e, g⟩
+
+/-- **C03 for sets from the constructor**: every session on a freshly constructed set (either triple)
+behaves like the ideal ordered set that starts empty -/
+theorem set_new_session_refines (ho : TotalOrder cmp) (tr : Triple) (m0 m1 : Mem) (s0 : TreeSet)
+    (hnew : TreeSet.newT tr m0 = (.ok, some s0, m1)) (segs : List OrdSet.Segment) :
+    (s0.runSession cmp segs m1).1 = (OrdSet.runSession cmp (TreeTable.refusedOfT tr) [] segs).1 ∧
+    (s0.runSession cmp segs m1).2.1.t.abs = (OrdSet.runSession cmp (TreeTable.refusedOfT tr) [] segs).2 ∧
+    (s0.runSession cmp segs m1).2.1.Inv cmp ∧
+    (TreeSet.SessionValid cmp s0 segs m1 → (s0.runSession cmp segs m1).2.2.fault = m1.fault) := by
+  obtain ⟨hi, ha, ht, _, _, how⟩ := (TreeSet.newT_spec (cmp := cmp) tr m0).1 s0 m1 hnew
+  have := set_session_refines ho segs s0 hi m1 (TreeSet.owns_table hi how)
+  rw [ha, ht] at this
+  exact ⟨this.1, this.2.1, this.2.2.1, this.2.2.2.1⟩
 
 /-- `apiOut` changes nothing but the out-value of a successful `remove` -/
 theorem apiOut_spec (op : OrdSet.Op) (o : Out) :
